@@ -99,7 +99,7 @@ func cmdVerify(args []string) {
 			fmt.Printf("%s: %d obligations (gen %.2fs)\n", n, len(r.Ctx.Obls), gt.Seconds())
 			continue
 		}
-		vc.Discharge(r.Ctx.Obls, vc.SolveOpts{Timeout: *to, Workers: 12, TmpDir: *tmp})
+		vc.Discharge(r.Ctx.Obls, vc.SolveOpts{Timeout: *to, Workers: 12, TmpDir: *tmp, KeepSMT: os.Getenv("LZVC_KEEP") != ""})
 		ok := 0
 		for _, o := range r.Ctx.Obls {
 			if o.Status == "discharged" {
